@@ -256,23 +256,28 @@ Print Assumptions dok_fancy_refuted.
 (* (4') GCXS.__getitem__ = _compressed/indexing.getitem (Model/GcxsGetitem.v: normalisation, the
    full-slice shortcut, get_single_element, the compressed / uncompressed bookkeeping, reordering by
    _axis_order, convert_to_flat, the two selection kernels, the re-splitting `uncompressed // size`,
-   shape and compressed-axes bookkeeping), for every WELL-FORMED GCXS array of ANY ndim >= 2 with
-   strictly increasing compressed axes (check_compressed_axes enforces that in GCXS.__init__) and
-   every basic index without None (integers, slices with any start/stop/step, Ellipsis, fewer entries
-   than axes): the result has NumPy's shape, the same fill value and the dense meaning NumPy prescribes
+   shape and compressed-axes bookkeeping, re-insertion of the None axes), for every WELL-FORMED GCXS
+   array of ANY ndim >= 2 with strictly increasing compressed axes (check_compressed_axes enforces that
+   in GCXS.__init__) and every index of the classes
+     gcxs_ix_class:  basic (integers, slices with any start/stop/step, Ellipsis, fewer entries than axes)
+                     or exactly ONE index array (integer — repeated, unsorted, negative entries — or
+                     boolean; D29 clause: no empty boolean array on a non-empty axis), the rest basic;
+     gcxs_none_cond: no None at all, or None anywhere as long as no integer stands before a None and at
+                     least two axes survive:
+   the result has NumPy's shape, the same fill value and the dense meaning NumPy prescribes
    (gcxs_getitem_den) and is again well-formed — sorted rows, consistent indptr, valid compressed axes,
    none for a 1-d result (gcxs_getitem_wf); an all-integer index gives the element; NumPy's IndexError
    cases raise IndexError.  In fact the result is GCXS.from_coo of the COO result with the compressed
    axes the code computes (Proofs/GcxsGetitemNdP.v; ndim = 1 delegates to COO: coo_getitem_den).
-   Clauses (findings, refuted below): None in the index with no / one surviving axis (D22, D27) or after
-   an integer (D28), a 0-d array (D22); not covered by a proof: None in the remaining positions, index
-   arrays (D21 for several, unproved for one), unsigned index dtypes (gcxs_getitem_unsigned_indices). *)
+   Clauses (findings, refuted below): None with no / one surviving axis (D22, D27) or after an integer
+   (D28), a 0-d array (D22); several index arrays (D21), unsigned index dtypes
+   (gcxs_getitem_unsigned_indices). *)
 From Verif Require Import GCXS GcxsGetitem GcxsGetitem2dP GcxsGetitemNdP.
 Theorem gcxs_getitem_den_partial :
   forall (V : Type) (veqb : V -> V -> bool) (add : V -> V -> V) (kf : nat -> nat)
          (g : gcxs V) (ix : index),
     gcxs_wfb g = true -> (2 <= length (g_shape g))%nat -> StronglySorted Z.lt (g_caxes g) ->
-    no_zero_step ix = true -> basic ix = true -> no_new ix = true ->
+    no_zero_step ix = true -> gcxs_ix_class (g_shape g) ix -> gcxs_none_cond (g_shape g) ix ->
     match np_index (g_shape g) ix with
     | Raise e => gcxs_getitem V veqb add kf g ix = Raise e /\ e = IndexError
     | Ok (sh', gsrc) =>
@@ -290,10 +295,41 @@ Theorem gcxs_getitem_wf_partial :
   forall (V : Type) (veqb : V -> V -> bool) (add : V -> V -> V) (kf : nat -> nat)
          (g : gcxs V) (ix : index) (g' : gcxs V),
     gcxs_wfb g = true -> (2 <= length (g_shape g))%nat -> StronglySorted Z.lt (g_caxes g) ->
-    no_zero_step ix = true -> basic ix = true -> no_new ix = true ->
+    no_zero_step ix = true -> gcxs_ix_class (g_shape g) ix -> gcxs_none_cond (g_shape g) ix ->
     gcxs_getitem V veqb add kf g ix = Ok (GGArr g') -> gcxs_wfb g' = true.
 Proof. exact gcxs_getitem_wf_proof. Qed.
 Print Assumptions gcxs_getitem_wf_partial.
+
+(* ndim = 1: getitem computes x.tocoo()[key] and converts back with GCXS.from_coo (default compressed axes):
+   whatever holds of the COO result (coo_getitem_den, coo_getitem_one_array_partial, ...: any index class,
+   None included) holds of the GCXS result, which is again well-formed. *)
+Theorem gcxs_getitem_1d_partial :
+  forall (V : Type) (veqb : V -> V -> bool) (add : V -> V -> V) (kf : nat -> nat)
+         (g : gcxs V) (d : Z) (ix : index),
+    gcxs_wfb g = true -> g_shape g = [d] -> g_caxes g = [] -> g_indptr g = [] ->
+    let c := Convert.gcxs_tocoo veqb add g in
+    match np_index [d] ix with
+    | Raise e => getitem kf c ix = Raise e
+    | Ok (sh', gsrc) =>
+      match getitem kf c ix with
+      | Ok (GArr y) => c_shape y = sh' /\ c_fill y = c_fill c /\ canonical V y
+                       /\ forall j, in_range sh' j -> den y j = den c (gsrc j)
+      | Ok (GScalar v) => sh' = [] /\ v = den c (gsrc [])
+      | Raise _ => False
+      end
+    end ->
+    match np_index [d] ix with
+    | Raise e => gcxs_getitem V veqb add kf g ix = Raise e
+    | Ok (sh', gsrc) =>
+      match gcxs_getitem V veqb add kf g ix with
+      | Ok (GGArr g') => g_shape g' = sh' /\ g_fill g' = g_fill g /\ gcxs_wfb g' = true
+                         /\ forall j, in_range sh' j -> gden g' j = gden g (gsrc j)
+      | Ok (GGScalar v) => sh' = [] /\ v = gden g (gsrc [])
+      | Raise _ => False
+      end
+    end.
+Proof. exact gcxs_getitem_1d_proof. Qed.
+Print Assumptions gcxs_getitem_1d_partial.
 
 Theorem gcxs_getitem_d22_refuted :
   (let g := mkGCXS [] [] [3] [] [] 0 in
@@ -317,3 +353,39 @@ Theorem gcxs_getitem_d28_refuted :
   /\ match rx_get g ix with Ok (GGArr g') => g_shape g' = [2; 1; 2] | _ => False end.
 Proof. exact gcxs_getitem_d28_refuted_proof. Qed.
 Print Assumptions gcxs_getitem_d28_refuted.
+
+(* The scalar-vs-0-d rule for indices with index arrays: never a scalar, on either side (NumPy: np_scalar
+   is false as soon as one entry is not an integer; the code: the result shape has the arrays' axis). *)
+Theorem coo_scalar_rule_arrays :
+  forall (V : Type) (kf : nat -> nat) (x : coo V) (ix : index) (r : gres V),
+    shape_okb (c_shape x) = true -> no_zero_step ix = true -> d29_clause (c_shape x) ix = true ->
+    0 < countb is_iarr ix ->
+    getitem kf x ix = Ok r -> is_gscalar r = false /\ np_scalar (c_shape x) ix = false.
+Proof. exact coo_scalar_rule_arrays_proof. Qed.
+Print Assumptions coo_scalar_rule_arrays.
+
+(* Is normalize_index idempotent on its own output (after fix f6512bb)?  For one slice entry: yes whenever
+   the normalised stop is non-negative (every forward slice; every backwards slice stopping above index 0)
+   — for every start/stop/step incl. None and every extent.  In general: NO — a backwards slice that runs
+   down to index 0 is normalised to stop = -1, which a second normalisation wraps (x[::-1] on extent 5:
+   slice(4, -1, -1), then slice(4, 4, -1), selecting nothing).  Nothing relies on it any more:
+   DOK.__getitem__ hands the raw key to COO, GCXS (ndim 1) too. *)
+From Verif Require Import SlicingIdemP.
+Theorem slice_norm_idempotent_partial :
+  forall (a b c : option Z) (dim s e st : Z),
+    0 <= dim -> c <> Some 0 ->
+    normalize_slice (VSlice (oz a) (oz b) (oz c)) dim = Ok (VSlice (VInt s) (VInt e) (VInt st)) ->
+    0 <= e ->
+    normalize_slice (VSlice (VInt s) (VInt e) (VInt st)) dim = Ok (VSlice (VInt s) (VInt e) (VInt st)).
+Proof. exact slice_norm_idempotent_proof. Qed.
+Print Assumptions slice_norm_idempotent_partial.
+
+Theorem normalize_index_not_idempotent :
+  exists (sh : shape) (ix : index) (nix nix2 : list nentry),
+    normalize_index ix sh = Ok nix
+    /\ normalize_index (map index_of_nentry nix) sh = Ok nix2
+    /\ nix2 <> nix
+    /\ flat_map (fun e => match e with NSlice s e' st => range_list s e' st | _ => [] end) nix = [4; 3; 2; 1; 0]
+    /\ flat_map (fun e => match e with NSlice s e' st => range_list s e' st | _ => [] end) nix2 = [].
+Proof. exact normalize_index_not_idempotent_proof. Qed.
+Print Assumptions normalize_index_not_idempotent.
